@@ -26,6 +26,10 @@ CHECKS = {
    technique="explicit-state BFS over all statement interleavings of 2-3 sessions on the real engine, step-wise conformance to a snapshot-isolation model",
    text="All interleavings (to the completed depth) of the statements of 2 (quick) / 3 (thorough) concurrent sessions plus autocommit writers over colliding rows, on a table without index and on one with a unique index; every read result, every statement outcome and the final committed state are compared with the textbook snapshot-isolation model (snapshot at begin + own writes, first committer wins).",
    note="Trusted: the reference model; statement-level interleavings only (a statement runs to completion before the next is issued); UPDATE-related and write-write-conflict histories are listed known findings and judged only up to the hazard."),
+ "C05": dict(engine="sqlenum", cat=EX, ref="7/C05",
+   technique="exhaustive enumeration of a bounded query grammar against fixed populations on the real engine, each answer compared with a reference evaluator (three-valued logic) run on a mirror of the data",
+   text="Every query of a bounded grammar over three small tables with NULLs, duplicates, negative/zero/large values and prefix-related texts: WHERE a / NOT a / NOT NOT a for 51 typed atoms (comparisons, IS [NOT] NULL, [NOT] BETWEEN, [NOT] IN with and without NULL, [NOT] LIKE, arithmetic in every precedence/associativity shape, unary minus), a AND b / a OR b for ALL ordered pairs of atoms, ten three-atom shapes printed with minimal parentheses over a 12-atom subset (quick: an eighth of the triples), all pairs of 12 select-list expressions, COUNT/SUM/AVG/MIN/MAX of every column under four predicates and under GROUP BY, ORDER BY every column asc/desc with one and two keys, LIMIT x OFFSET grids, DISTINCT, JOIN/INNER/LEFT/RIGHT x four ON conditions x nine WHERE shapes (left-only, right-only, both sides, conjunctions, IS NULL), CROSS and comma joins, three-table joins in every written order, and DELETE/UPDATE ... WHERE atom, multi-column and expression updates and multi-row INSERT with reported count and resulting table.",
+   note="Trusted: the reference evaluator (harness/src/sqlmodel.rs) - it interprets the expression TREE, the engine gets the minimal-parentheses text, so parser precedence is compared too. Division, modulo, CASE, sub-queries, HAVING and scalar functions are outside this grammar. Two listed findings (RIGHT JOIN, three-way explicit JOIN) are applied only to failing queries of exactly those shapes."),
  "C07": dict(engine="seq", cat=MC, ref="7/C07",
    technique="explicit-state BFS over operation sequences of the real engine, step-wise conformance to a constraint-aware snapshot-isolation model",
    text="Every sequence (to the completed depth) of insert / duplicate insert / NULL insert / multi-row insert with a duplicate / delete / re-insert / update-to-key / rollback / VACUUM operations of two sessions plus autocommit, on tables whose UNIQUE and NOT NULL constraints are declared in CREATE TABLE (single and two-column) or added by CREATE UNIQUE INDEX on populated data; every statement must be accepted or rejected exactly as the model says and every fresh read must equal the model, which keeps the committed-state invariant by construction.",
@@ -99,6 +103,8 @@ m = {
     "kind_free_text": "explicit-state BFS over tree operation sequences on the real Btree/Pager via the verif facade; ordered-map model, page-graph structure audit and whole-file ownership audit evaluated in the harness from raw page dumps"},
    {"name": "crash", "path": "harness/src/engines/crash.rs", "serves_properties": [k for k,v in CHECKS.items() if v["engine"]=="crash"],
     "kind_free_text": "fault enumeration: the seq engine's histories run under an I/O tap; every prefix of the file-mutation stream (and, for C08, of the recovery's own stream) is rebuilt and reopened"},
+   {"name": "sqlenum", "path": "harness/src/engines/sqlenum.rs", "serves_properties": ["C05"],
+    "kind_free_text": "flat exhaustive enumeration of a bounded SQL grammar executed on the real engine; reference evaluator in harness/src/sqlmodel.rs"},
    {"name": "tuple", "path": "harness/src/engines/tuple.rs", "serves_properties": ["C18"],
     "kind_free_text": "flat exhaustive enumeration (index -> schema, row, update chain) with inner loops over state assignments and horizons, on the real tuple code via the verif facade"},
    {"name": "values", "path": "harness/src/engines/values.rs", "serves_properties": ["C19"],
